@@ -113,11 +113,11 @@ Qed.
 
 Lemma build_okerr jn netid t ty je dn mk ek : okerr (build_join_accept jn netid t ty je dn mk ek).
 Proof.
-  unfold build_join_accept. destruct (opt_cflist (t_cflist t)) as [cfl| | |] eqn:E; cbn [bind]; auto with okerr;
+  unfold build_join_accept. destruct (_ || _); [auto with okerr|]. destruct (opt_cflist (t_cflist t)) as [cfl| | |] eqn:E; cbn [bind]; auto with okerr;
     try (pose proof (opt_cflist_okerr (t_cflist t)) as [H1 H2]; congruence).
   apply opt_cflist_inv in E. destruct (t_dl t) as [[o rx2] rx1].
   unfold set_down_join_mic, calc_down_join_mic. cbn [pl mtype major].
-  pose proof (ja_marshal_okerr jn netid (t_devaddr t) o rx2 rx1 (Z.to_N (t_rxdelay t mod 256)) cfl E) as M.
+  pose proof (ja_marshal_okerr jn netid (t_devaddr t) o rx2 rx1 (Z.to_N (t_rxdelay t)) cfl E) as M.
   destruct (payload_marshal _) as [b| | |] eqn:Eb; cbn [bind]; auto with okerr; try (destruct M; congruence).
   unfold encrypt_join_accept, set_mic. cbn [pl mtype major Frame.Model.mic]. rewrite Eb. cbn [bind].
   destruct (negb _); cbn [bind]; auto with okerr.
@@ -155,9 +155,9 @@ Proof.
   assert (V : okerr (validate_up_join_mic (dk_nwkkey dk) a)).
   { unfold validate_up_join_mic, calc_up_join_mic. rewrite Epl. cbn [payload_marshal bind]. auto with okerr. }
   step_lift V. destruct (negb _); [congruence|].
-  assert (J : okerr (set_join_nonce dk)) by (unfold set_join_nonce; destruct (_ <? _)%Z; auto with okerr).
+  assert (J : okerr (set_join_nonce dk)) by (unfold set_join_nonce; destruct (_ || _); auto with okerr).
   step_lift J. destruct (t_dl t) as [[o rx2] rx1] eqn:Edl.
-  step_lift (session_keys_okerr o dk a0 a1 a3 devnonce).
+  match goal with |- pbind (lift (session_keys ?a ?b ?c ?d ?e ?f)) _ <> _ => step_lift (session_keys_okerr a b c d e f) end.
   match goal with |- pbind (lift (build_join_accept ?a ?b ?c ?d ?e ?f ?g ?h)) _ <> _ => step_lift (build_okerr a b c d e f g h) end.
   match goal with |- pbind (lift (envelope_of ?a ?b ?c)) _ <> _ => step_lift (envelope_of_okerr a b c) end.
   destruct o.
@@ -169,7 +169,7 @@ Lemma rejoin_pipeline_no_panic s rcv t dk al ak nl nk : rejoin_pipeline s rcv t 
 Proof.
   unfold rejoin_pipeline.
   step_lift (phy_unmarshal_okerr (t_phy t)). step_lift (unmarshal_text_okerr 3 s). step_lift (unmarshal_text_okerr 8 rcv).
-  assert (J : okerr (set_join_nonce dk)) by (unfold set_join_nonce; destruct (_ <? _)%Z; auto with okerr).
+  assert (J : okerr (set_join_nonce dk)) by (unfold set_join_nonce; destruct (_ || _); auto with okerr).
   destruct (pl a); cbn [pbind]; try congruence.
   all: step_lift J.
   all: match goal with |- pbind (lift (session_keys ?a ?b ?c ?d ?e ?f)) _ <> _ => step_lift (session_keys_okerr a b c d e f) end.
@@ -197,7 +197,9 @@ Qed.
 
 Theorem handle_no_panic cfg b : callbacks_return cfg -> handle cfg b <> APanic.
 Proof.
-  intros C. destruct b as [|r]; cbn [handle]; [discriminate|].
+  intros C. destruct b as [|r|r]; cbn [handle]; [discriminate| |].
+  { unfold member_error. pose proof (base_decode_okerr r) as [B1 B2].
+    destruct (base_decode r); try congruence; try discriminate. repeat (destruct (bytes_eqb _ _)); discriminate. }
   pose proof (base_decode_okerr r) as [B1 B2]. destruct (base_decode r); try congruence; try discriminate.
   destruct (bytes_eqb _ _); [apply activation_no_panic; [exact C|apply join_pipeline_no_panic]|].
   destruct (bytes_eqb _ _); [apply activation_no_panic; [exact C|apply rejoin_pipeline_no_panic]|].
